@@ -232,7 +232,12 @@ def do_replay(pid, path):
     if kind == "direct":
         import direct
         fn = getattr(direct, "check_" + payload["check"])
-        r = fn(random.Random(payload["seed"]), payload["n"]) if payload["check"] != "c15" else fn(random.Random(0), 0)
+        try:
+            r = fn(random.Random(payload["seed"]), payload["n"]) if payload["check"] != "c15" else fn(random.Random(0), 0)
+        except Exception as e:   # noqa  the implementation raised inside the direct check (that is the replay)
+            log("replay of %s: direct check %s: the implementation raised %s: %s" % (
+                path, payload["check"], type(e).__name__, str(e)[:200]))
+            return 1
         v = [x for x in r["violations"] if x["prop"] == pid and x["sig"] == payload.get("sig", x["sig"])]
         log("replay of %s: direct check %s: %d violations" % (path, payload["check"], len(v)))
         for x in v[:5]:
@@ -300,12 +305,34 @@ def main():
             n = DIRECT_N[name][0 if tier == "quick" else 1]
             rng = random.Random("%s-%s" % (name, a.seed))
             fn = getattr(direct, "check_" + name)
-            if name == "c15":
-                direct_res[name] = fn(rng, n, thorough=(tier == "thorough"))
-            elif name == "c11":
-                direct_res[name] = fn(rng, n, thorough=(tier == "thorough"))
-            else:
-                direct_res[name] = fn(rng, n)
+            try:
+                if name in ("c15", "c11"):
+                    direct_res[name] = fn(rng, n, thorough=(tier == "thorough"))
+                else:
+                    direct_res[name] = fn(rng, n)
+            except Exception as e:   # noqa
+                # a direct check drives the real code on legal inputs: an exception it does not expect is a
+                # behaviour of the implementation (a violation with this check as replay) when the traceback
+                # ends inside /repo or a library it calls on /repo's behalf, an infrastructure failure otherwise
+                import traceback
+                tb, ex, seen = [], e, set()
+                while ex is not None and id(ex) not in seen:      # SimPy re-raises a copy: follow the cause chain
+                    seen.add(id(ex))
+                    tb += traceback.extract_tb(ex.__traceback__)
+                    ex = ex.__cause__ or ex.__context__
+                repo = os.path.realpath(os.environ.get("TOPSIM_REPO", "/repo"))
+                inside = [f for f in tb if os.path.realpath(f.filename).startswith(repo + os.sep)]
+                if not inside:
+                    log("infrastructure error in direct check %s: %s" % (name, "".join(traceback.format_exception(e))[-1200:]))
+                    return 2
+                where = inside[-1]
+                direct_res[name] = {
+                    "evaluations": 1, "nontrivial": 0, "dist": {}, "samples": [], "diffs": [],
+                    "violations": [{"prop": pid, "kind": "implementation-raised-in-direct-check",
+                                    "sig": "direct-raised:%s@%s:%s" % (type(e).__name__, os.path.basename(where.filename), where.name),
+                                    "detail": "%s: %s (in %s:%d %s), while running direct check %s" % (
+                                        type(e).__name__, str(e)[:120], os.path.relpath(where.filename, repo), where.lineno, where.name, name),
+                                    "input": None}]}
 
     # ---- collect
     viol, diffs = [], []
@@ -324,8 +351,8 @@ def main():
         for d in rp.get("diffs", []):
             diffs.append({"stream": r["stream"], "seed": r["seed"], "diff": d})
         for v in r.get("violations", []):
-            if v["prop"] == pid:
-                viol.append(dict(v, stream=r["stream"], seed=r["seed"]))
+            if v["prop"] == pid or v["prop"] == "*":
+                viol.append(dict(v, prop=pid, stream=r["stream"], seed=r["seed"]))
         f2 = r.get("feat2") or {}
         key = (r["stream"], f2.get("pairing"), f2.get("machines"), f2.get("observations"), f2.get("tasks"),
                f2.get("overlapping_pairs"), f2.get("delay"))
